@@ -37,7 +37,8 @@ class Prop:
     level_note = ("Trusted: Coq 8.16.1 kernel; Sem/ (hand-written semantics of Rust integers in both overflow profiles, slices, panics, "
                   "io::Error kinds, collaborators as parameters); the model is tied to the code (T1) by re-translation of the modelled "
                   "functions from /repo on every run (rs2v ast + vlib/translate.py -> Gen/*.v) with per-function equalities GenEq/*.v "
-                  "re-proved, where the function is in the translated subset, and (T2) by correspondence, i.e. differential execution on "
+                  "re-proved, where the function is in the translated subset, and the property's theorems restated about the regenerated "
+                  "definitions (GenEq/ApiSource.v, RfSource.v, Transfer.v, SrcC<nn>.v) re-checked on every run, and (T2) by correspondence, i.e. differential execution on "
                   "generated cases in both cargo profiles; extraction via ExtrOcamlBasic; translator, harness, generators and checkers. "
                   "No axioms (Print Assumptions: closed under the global context).")
     technique = "Coq proof over an executable model; model regenerated from the source by a translator and re-proved equal (T1) + model/implementation correspondence (differential execution, dev+release) (T2)"
